@@ -652,6 +652,85 @@ func (p *Prog) OriginsInter(v ssa.Value) []Leaf {
 	return rec(v, 0)
 }
 
+// Family returns root followed by its continuations: functions of the shipped packages that are
+// only ever called (statically, transitively) from root and have root's result types - what a
+// maintainer gets by splitting root in two or three.  Rules written for root's paths evaluate
+// the paths of every member; a return that merely forwards a member's result is judged there.
+func (p *Prog) Family(root *ssa.Function) []*ssa.Function {
+	out := []*ssa.Function{root}
+	for _, fn := range p.Funcs {
+		if fn == root || len(fn.Blocks) == 0 || !p.OnlyCalledWithin(fn, root) {
+			continue
+		}
+		if !types.Identical(fn.Signature.Results(), root.Signature.Results()) {
+			continue
+		}
+		out = append(out, fn)
+	}
+	return out
+}
+
+// ForwardsMember: the return forwards the result of a call to a member of the family.
+func ForwardsMember(ret *ssa.Return, family []*ssa.Function) bool {
+	for _, r := range ret.Results {
+		v := r
+		if ex, ok := v.(*ssa.Extract); ok {
+			v = ex.Tuple
+		}
+		if call, ok := v.(*ssa.Call); ok {
+			if cal := call.Call.StaticCallee(); cal != nil {
+				for _, m := range family {
+					if m == cal {
+						return true
+					}
+				}
+			}
+		}
+	}
+	return false
+}
+
+// OriginsDeep is Origins, except that a leaf which is the result of a static call of a function of
+// the shipped packages is replaced by the origins of what that function returns there (depth 2).
+func (p *Prog) OriginsDeep(v ssa.Value) []Leaf {
+	var rec func(v ssa.Value, depth int) []Leaf
+	rec = func(v ssa.Value, depth int) []Leaf {
+		var out []Leaf
+		for _, l := range Origins(v) {
+			if l.Kind != "call" || depth >= 2 {
+				out = append(out, l)
+				continue
+			}
+			cal := l.Call.Common().StaticCallee()
+			if cal == nil || !p.inScope(cal) || len(cal.Blocks) == 0 {
+				out = append(out, l)
+				continue
+			}
+			n := 0
+			ForEachInstr(cal, func(in ssa.Instruction) {
+				ret, ok := in.(*ssa.Return)
+				if !ok || ret.Block() == cal.Recover {
+					return
+				}
+				rv := ReturnValues(ret)
+				if l.Index >= len(rv) {
+					return
+				}
+				for _, l2 := range rec(rv[l.Index], depth+1) {
+					l2.Ops = append(append([]token.Token{}, l.Ops...), l2.Ops...)
+					out = append(out, l2)
+					n++
+				}
+			})
+			if n == 0 {
+				out = append(out, l)
+			}
+		}
+		return out
+	}
+	return rec(v, 0)
+}
+
 // FactsAtInter: the branch facts that hold at block b, plus (when b's function is a helper with
 // exactly one static call site) the facts that hold at that call site, transitively.
 func (p *Prog) FactsAtInter(b *ssa.BasicBlock) []Fact {
